@@ -538,6 +538,7 @@ def rules(ctx):
 def init_rules(ctx, C, X, funcs):
     """M5: fully written before read."""
     summ = {}
+    early = {}
 
     def events(f, v):
         """Ordered events on pointer variable v in f."""
@@ -567,13 +568,21 @@ def init_rules(ctx, C, X, funcs):
                 if nsp(a_) == v and cal is not None and pos < len(cal.params):
                     ev.append((c['line'], 2, 'call', dict(callee=cal.name, param=cal.params[pos][0],
                                                           guards=tuple(nsp(g) for g in c['guards']))))
+        for r_ in f.returns:
+            ev.append((r_['line'], 3, 'ret', dict(guards=tuple(nsp(g) for g in r_['guards']))))
         ev.sort(key=lambda e: (e[0], e[1]))
         return ev
 
     def scan(f, v, depth):
         """(state at end, reads-before-init list, fully written at end)"""
         inited, rb, wrote0, partial = None, [], False, []
+        early[(f.name, v)] = False
         for line, _, kind, d in events(f, v):
+            if kind == 'ret':
+                # leaving the function before the buffer is completely written: the caller must not take it as written
+                if not (inited and inited[0] == 'full'):
+                    early[(f.name, v)] = True
+                continue
             if kind == 'w':
                 if d['idx'] == '0':
                     wrote0 = True
@@ -614,7 +623,7 @@ def init_rules(ctx, C, X, funcs):
         summ[key] = ('R', None, False)      # pessimistic for recursion
         f = C.funcs[fname]
         inited, rb = scan(f, p, depth)
-        writes_full = inited is not None and inited[0] == 'full'
+        writes_full = inited is not None and inited[0] == 'full' and not early.get((fname, p))
         if not rb:
             out = ('W' if writes_full else 'N', None, writes_full)
         else:
